@@ -245,6 +245,9 @@ def check(rep, tier, seed):
     rep.outside_claim += ["the status-file writer", "the HashMap entry API itself and u64 overflow of a count", "concurrent connections (each handler instance is independent; the counter is serialised by the actor)"]
     rep.trusted += ["mirsym", "z3"]
 
+    import e2e
+    e2e.confirm(rep, "C11")
+
 
 def replay(path):
     print(open(path).read())
